@@ -87,13 +87,14 @@ fn run_v<V: VringT<GM<()>> + Clone + Send + Sync + 'static>(sim: &Sim, cfg: &Run
     ];
     let (adapter, masks, nrings, ctls, nkicks, kick_rings, nonblock) = sim.with_w(|t| {
         let adapter = if t.chance(1, 2) { Adapter::Mutex } else { Adapter::RwLock };
-        let nrings = t.range(1, 2) as usize;
-        let masks: Vec<u64> = if nrings == 1 {
-            vec![0b1]
-        } else if t.chance(1, 2) {
-            vec![0b11]
-        } else {
-            vec![0b01, 0b10]
+        let nrings = t.range(1, 3) as usize;
+        // contiguous, descending and interleaved assignments of rings to workers
+        let masks: Vec<u64> = match nrings {
+            1 => vec![0b1],
+            2 => t.pick(&[vec![0b11u64], vec![0b01, 0b10], vec![0b10, 0b01]]).clone(),
+            _ => t
+                .pick(&[vec![0b111u64], vec![0b101, 0b010], vec![0b010, 0b101], vec![0b100, 0b010, 0b001], vec![0b110, 0b001]])
+                .clone(),
         };
         let n = t.range(1, if deep { 12 } else { 6 });
         let mut ctls = Vec::new();
@@ -123,6 +124,8 @@ fn run_v<V: VringT<GM<()>> + Clone + Send + Sync + 'static>(sim: &Sim, cfg: &Run
         StubCfg {
             num_queues: nrings,
             queues_per_thread: masks.clone(),
+            // every dispatch "processes one request": the index GET_VRING_BASE reports must be final
+            advance_avail_on_event: true,
             ..Default::default()
         },
         sim,
@@ -223,8 +226,21 @@ fn run_v<V: VringT<GM<()>> + Clone + Send + Sync + 'static>(sim: &Sim, cfg: &Run
                     enabled[r] = true;
                 }
                 Ctl::StopRestart(r) => {
-                    if let Err(e) = vmm.fe.get_vring_base(r) {
-                        fail("GET_VRING_BASE", e);
+                    match vmm.fe.get_vring_base(r) {
+                        Err(e) => fail("GET_VRING_BASE", e),
+                        Ok(base) => {
+                            // the ring is stopped when the reply arrives: every dispatch that was
+                            // entered has finished, so the reported index counts all of them
+                            let done = orc_v.lock().unwrap().rings[r].dispatches;
+                            if base != (done & 0xffff) as u32 {
+                                sched::violation(Violation::new(
+                                    "C12",
+                                    "vring_base_not_final",
+                                    "GET_VRING_BASE",
+                                    format!("GET_VRING_BASE({r}) reported next-available index {base}, but {done} requests had been taken off ring {r} by the time the reply arrived (each event-handler call advances the index by one; a call still under way when the index was read is missing)"),
+                                ));
+                            }
+                        }
                     }
                     {
                         // kicks on the dropped descriptor are moot from here on
